@@ -15,8 +15,8 @@ def check_hash(cx, qual, inst, prefix, mid):
     P = Prov(fn, cx.F); cn = Canon(fn, P)
     hs = FR.calls_of(fn, 'gm_sm3::sm3_hash')
     cx.floor('F-' + inst, 'hash-sites', len(hs), 2, 'SM3 invocations in %s' % inst)
-    want1 = ['arr:%s' % hex(prefix)] + mid + ['arr:0x1000000']
-    want2 = ['arr:%s' % hex(prefix)] + mid + ['arr:0x2000000']
+    want1 = ['byte(%d)' % prefix] + mid + ['bytes:00000001']
+    want2 = ['byte(%d)' % prefix] + mid + ['bytes:00000002']
     got = [preimage(fn, P, b, 0, cn)[0] for b in hs]
     cx.add('F-' + inst, 'block1', want1 in got, 'Ha1 = SM3(0x%02x || Z || 00000001): %s' % (prefix, got), fn.loc())
     cx.add('F-' + inst, 'block2', want2 in got, 'Ha2 = SM3(0x%02x || Z || 00000002)' % prefix, fn.loc())
